@@ -49,6 +49,20 @@ def _prime_factors(r):
     return out
 
 
+class SignPred:
+    """the undecided predicate  p > 0  (p != 0 assumed)"""
+    __slots__ = ("p",)
+
+    def __init__(self, p):
+        self.p = p
+
+    def __bool__(self):
+        raise Undecided(f"truth value of the sign of {self.p!r}")
+
+    def __repr__(self):
+        return f"SignPred({self.p!r} > 0)"
+
+
 class PolyDomain:
     exact_concrete = True
     can_branch = False
@@ -178,10 +192,30 @@ class PolyDomain:
             return 0
         raise Undecided(f"sign of {d!r} (class {sc})")
 
-    def lt(self, a, b): return self._cmp(a, b) < 0
-    def le(self, a, b): return self._cmp(a, b) <= 0
-    def gt(self, a, b): return self._cmp(a, b) > 0
-    def ge(self, a, b): return self._cmp(a, b) >= 0
+    def _cmp_or_pred(self, a, b, flip):
+        """decided comparison, or (opt-in, `symbolic_sign_preds`) a SignPred handled by select through a sign atom"""
+        try:
+            return self._cmp(a, b)
+        except Undecided:
+            if not getattr(self, "symbolic_sign_preds", False):
+                raise
+            return SignPred(b - a if flip else a - b)
+
+    def lt(self, a, b):
+        c = self._cmp_or_pred(a, b, True)
+        return c if isinstance(c, SignPred) else c < 0
+
+    def le(self, a, b):
+        c = self._cmp_or_pred(a, b, True)
+        return c if isinstance(c, SignPred) else c <= 0
+
+    def gt(self, a, b):
+        c = self._cmp_or_pred(a, b, False)
+        return c if isinstance(c, SignPred) else c > 0
+
+    def ge(self, a, b):
+        c = self._cmp_or_pred(a, b, False)
+        return c if isinstance(c, SignPred) else c >= 0
     def eq(self, a, b):
         if isinstance(a, bool) or isinstance(b, bool):
             return bool(a) == bool(b)
@@ -198,6 +232,13 @@ class PolyDomain:
     def xor_(self, a, b): return bool(a) != bool(b)
 
     def select(self, b, t, f):
+        if isinstance(b, SignPred):
+            # predicate "p > 0" with p != 0 (A3): blend through the sign atom s (s^2 = 1, s p = |p|)
+            if isinstance(t, Poly) and isinstance(f, Poly):
+                sg = self.sign(b.p)
+                half = Poly.const(Fraction(1, 2))
+                return (t + f) * half + (t - f) * half * sg
+            raise Undecided(f"select of non-numeric operands on the sign of {b.p!r}")
         d = self.decide(b)
         if d is None:
             raise Undecided(f"select on {b!r}")
@@ -507,6 +548,10 @@ class PolyDomain:
             return Z.copy()
         # columns that are identically zero -> corresponding row/col pattern is still generic; keep general
         R, name = self._fresh_mat("R", (n, n), "qr_r", upper=True)
+        if getattr(self, "qr_pos_diag", False):
+            # case assumption diag(R) > 0; the other sign patterns are its images under (Q, R) -> (Q D, D R)
+            for i in range(n):
+                self.pos.add(list(R[i, i].vars())[0])
         G = M.T.dot(M) if M.size else None
         RtR = R.T.dot(R)
         for i in range(n):
@@ -515,6 +560,24 @@ class PolyDomain:
         self.notes.append(("qr", name, (m, n)))
         self.cache[ckey] = R
         return R.copy()
+
+    def qr_q(self, M):
+        """the orthogonal factor belonging to qr_r(M) (reduced form): M = Q R, Q^T Q = I"""
+        m, n = M.shape
+        ckey = ("qr_q", M.shape, tuple(M.reshape(-1).tolist()))
+        if ckey in self.cache:
+            return self.cache[ckey].copy()
+        R = self.qr_r(M)
+        Q, name = self._fresh_mat("Q", (m, n), "qr_q")
+        E = Q.dot(R) - M
+        for idx in np.ndindex(m, n):
+            self.hyp(E[idx], f"{name}:QR=M{list(idx)}")
+        G = Q.T.dot(Q)
+        for i in range(n):
+            for j in range(i, n):
+                self.hyp(G[i, j] - Poly.const(1 if i == j else 0), f"{name}:QtQ=I[{i},{j}]")
+        self.cache[ckey] = Q
+        return Q.copy()
 
     def tri_solve(self, A, B, *, left_side, lower, transpose_a, unit_diagonal):
         n = A.shape[0]
@@ -658,9 +721,15 @@ class FloatDomain:
     def uf(self, name, args, positive=False):
         raise Unsupported("uninterpreted function in the float domain")
 
+    want_q = True
+
     def qr_r(self, M):
         R = np.linalg.qr(M.astype(float), mode="r")
         return R.astype(object)
+
+    def qr_q(self, M):
+        Q, _ = np.linalg.qr(M.astype(float), mode="reduced")
+        return Q.astype(object)
 
     def tri_solve(self, A, B, *, left_side, lower, transpose_a, unit_diagonal):
         import scipy.linalg as sl
